@@ -9,13 +9,16 @@ PROP = {'lean_props': ['Comrak.Props.C14'],
                        'tagfilterBlock_eq_rewriteSpec',
                        'tagfilter_formfeed_filtered',
                        'no_disallowed_survives',
+                       'tagfilterBlock_local',
+                       'disallowed_neutralised_in_context',
                        'no_disallowed_survives_partial',
                        'inline_filtered_iff',
                        'block_filtered',
                        'unfiltered_verbatim'],
  'strength': 'full: tagfilter l = disallowedAt l (the GFM rule with the HTML tokenizer\'s white space) for every literal, tagfilter_block = rewriteSpec '
              'for every literal, and "no such tag survives in an HTML block" as a theorem about the output itself (survivorsH (tagfilterBlock l) = 0 for '
-             'every literal; the driver\'s survivors counter is proved equal to survivorsH). The form-feed gap of the pinned tree was repaired in /repo.',
+             'every literal; the driver\'s survivors counter is proved equal to survivorsH); locality: the filter carries no state across a '<' "
+             '(tagfilterBlock (p ++ < t) = tagfilterBlock p ++ tagfilterBlock (< t)), so no quote, comment or open-tag context switches it off. The form-feed gap of the pinned tree was repaired in /repo.',
  'trusted_base': ["recursive renderT/renderF stand for comrak's explicit work-stack traversal (exercised by the correspondence on deep and wide "
                   'trees, not proved)',
                   'anchor normalisation (Unicode lower-casing / category filter) is a parameter of the model; the harness supplies the real '
